@@ -25,6 +25,9 @@ var seamAssumptions = []string{
 
 var registry = map[string]prop{}
 
+// innerParts holds, for properties whose parts run in child processes, the in-process parts the children run.
+var innerParts = map[string]func() []mc.Part{}
+
 func main() {
 	if len(os.Args) >= 2 && os.Args[1] == "list" {
 		var ids []string
@@ -46,13 +49,28 @@ func main() {
 		os.Exit(2)
 	}
 	switch os.Args[1] {
+	case "part":
+		if len(os.Args) < 4 || innerParts[id] == nil {
+			os.Exit(2)
+		}
+		for _, ip := range innerParts[id]() {
+			if ip.Name == os.Args[3] {
+				os.Exit(mc.RunPartWire(id, ip))
+			}
+		}
+		fmt.Fprintln(os.Stderr, "no such part", os.Args[3])
+		os.Exit(2)
 	case "check":
 		os.Exit(mc.RunCheck(id, p.level, p.assumptions, p.parts()))
 	case "replay":
 		if len(os.Args) < 4 {
 			os.Exit(2)
 		}
-		os.Exit(mc.RunReplay(id, p.parts(), os.Args[3]))
+		parts := p.parts()
+		if f := innerParts[id]; f != nil {
+			parts = f()
+		}
+		os.Exit(mc.RunReplay(id, parts, os.Args[3]))
 	}
 	os.Exit(2)
 }
